@@ -7,6 +7,7 @@ import (
 	"crypto/hmac"
 	"crypto/sha1"
 	"encoding/json"
+	"hash/crc32"
 	"math/rand"
 	"os"
 	"sync"
@@ -264,6 +265,7 @@ func TestVerifAuth(t *testing.T) {
 	}
 
 	concurrentAuth(tw, mode)
+	lengthSweep(tw, r, mode)
 	if mode == "C04" {
 		// signing refused once FINGERPRINT is present (message must stay unchanged)
 		for i := 0; i < envInt("VERIF_N_REFUSE", 20); i++ {
@@ -617,4 +619,81 @@ func concurrentAuth(tw *traceWriter, mode string) {
 	}
 	close(gate)
 	wg.Wait()
+}
+
+// lengthSweep signs / fingerprints messages whose body length lies on both sides of every multiple of 256 up to
+// VERIF_N_LENSWEEP*256 (the two header-length bytes carry there) and, in the thorough tier, at every multiple of 4 in
+// between. The setters and the checkers all rewrite the header length around the MAC / CRC computation.
+func lengthSweep(tw *traceWriter, r *rand.Rand, mode string) {
+	nb := envInt("VERIF_N_LENSWEEP", 4)
+	all := os.Getenv("VERIF_LENSWEEP_ALL") == "1"
+	for body := 0; body <= nb*256+16; body += 4 {
+		d := body % 256
+		if !all && !(d >= 224 || d <= 16) {
+			continue
+		}
+		m := new(stun.Message)
+		setters := []stun.Setter{stun.NewType(stun.Method(r.Intn(4096)), stun.MessageClass(r.Intn(4))), stun.TransactionID}
+		// one or two attributes filling exactly `body` bytes (the last value may be unpadded by up to 3 bytes)
+		rest := body
+		if rest >= 16 && r.Intn(2) == 0 {
+			n := 4 * (1 + r.Intn(rest/4-2))
+			setters = append(setters, stun.RawAttribute{Type: stun.AttrType(1 + r.Intn(0x30)), Value: randBytes(r, n-4)})
+			rest -= n
+		}
+		if rest >= 4 {
+			unpad := 0
+			if rest >= 8 {
+				unpad = r.Intn(4)
+			}
+			setters = append(setters, stun.RawAttribute{Type: stun.AttrType(1 + r.Intn(0x30)), Value: randBytes(r, rest-4-unpad)})
+		}
+		if err := m.Build(setters...); err != nil {
+			panic(err)
+		}
+		if len(m.Raw) != 20+body {
+			panic("lengthSweep: body length")
+		}
+		pre := append([]byte(nil), m.Raw...)
+		key := randBytes(r, []int{1, 16, 20, 64, 65}[r.Intn(5)])
+		if mode == "C04" {
+			err := stun.MessageIntegrity(key).AddTo(m)
+			signed := append([]byte(nil), m.Raw...)
+			tw.emit(map[string]interface{}{"k": "miadd", "pre": ints(pre), "post": ints(signed), "key": ints(key), "err": b01(err == nil)})
+			// checked as it is, and with attributes after the MAC (the checker rewinds the header length)
+			dm, ok := decodeCopy(signed, 0)
+			tw.emit(map[string]interface{}{"k": "michk", "raw": ints(signed), "dec": b01(ok),
+				"keys": [][]interface{}{{ints(key), checkVerdict(stun.MessageIntegrity(key), dm)}}})
+			m.Add(stun.AttrSoftware, randBytes(r, r.Intn(9)))
+			if r.Intn(2) == 0 {
+				_ = stun.Fingerprint.AddTo(m)
+			}
+			tail := append([]byte(nil), m.Raw...)
+			dm, ok = decodeCopy(tail, 24)
+			tw.emit(map[string]interface{}{"k": "michk", "raw": ints(tail), "dec": b01(ok),
+				"keys": [][]interface{}{{ints(key), checkVerdict(stun.MessageIntegrity(key), dm)}}})
+			continue
+		}
+		if body%8 == 4 {
+			_ = stun.MessageIntegrity(key).AddTo(m)
+			pre = append([]byte(nil), m.Raw...)
+		}
+		if err := stun.Fingerprint.AddTo(m); err != nil {
+			panic(err)
+		}
+		raw := append([]byte(nil), m.Raw...)
+		dm, _ := decodeCopy(raw, 0)
+		tw.emit(map[string]interface{}{"k": "fpadd", "pre": ints(pre), "post": ints(raw), "chk": checkVerdict(stun.Fingerprint, dm)})
+		// a fingerprint written by the reference (CRC-32 of everything before the attribute, length already counting it)
+		ref := append(append([]byte(nil), pre...), 0x80, 0x28, 0, 4, 0, 0, 0, 0)
+		setLen(ref)
+		v := crc32.ChecksumIEEE(ref[:len(ref)-8]) ^ 0x5354554e
+		ref[len(ref)-4], ref[len(ref)-3], ref[len(ref)-2], ref[len(ref)-1] = byte(v>>24), byte(v>>16), byte(v>>8), byte(v)
+		dm, ok := decodeCopy(ref, 0)
+		chk := 0
+		if ok {
+			chk = checkVerdict(stun.Fingerprint, dm)
+		}
+		tw.emit(map[string]interface{}{"k": "fpchk", "raw": ints(ref), "dec": b01(ok), "chk": chk})
+	}
 }
